@@ -433,6 +433,11 @@ impl<'p, C: SimCfg> World<'p, C> {
                     Node::new(Sess::Spec(sess), Vec::new(), *host, *catchup_speed, *max_frames_behind)
                 }
             };
+            let mut node = node;
+            node.game.own_snapshots = cfg.own_snapshots;
+            if cfg.own_snapshots && i == 0 {
+                w.probes.extra.insert("runs_with_own_snapshots", 1);
+            }
             w.nodes.push(node);
             for (j, other) in plan.nodes.iter().enumerate() {
                 let watched = match (&ns.kind, &other.kind) {
@@ -607,7 +612,27 @@ impl<'p, C: SimCfg> World<'p, C> {
                 Some(MMsg { magic: m, body: body.clone() }.to_bytes())
             }
             Payload::MutateLastInput(mu) => {
-                let last = self.core.borrow().last_input.get(&(from, to)).cloned();
+                let mut last = self.core.borrow().last_input.get(&(from, to)).cloned();
+                if last.is_none() && known && !self.plan.cfg.variable_size_input {
+                    // nothing sent on this link yet: start from the packet the sender would send first
+                    if let Some(NodeKind::Peer { locals }) = self.plan.nodes.get(from).map(|n| &n.kind) {
+                        let np = self.plan.cfg.num_players;
+                        // a host sends its spectators the inputs of all players
+                        let to_spectator = matches!(self.plan.nodes[to].kind, NodeKind::Spectator { .. });
+                        let frame = vec![0u8; 4 * if to_spectator { np } else { locals.len().max(1) }];
+                        last = Some(MMsg {
+                            magic: real_magic.unwrap_or(0x7777),
+                            body: MBody::Input(MInput {
+                                peer_connect_status: (0..np).map(|_| MConn { disconnected: false, last_frame: -1 }).collect(),
+                                disconnect_requested: false,
+                                start_frame: 0,
+                                ack_frame: -1,
+                                bytes: ggrs::verif::encode(&[], &[frame]),
+                            }),
+                        });
+                        *self.probes.extra.entry("forged_before_first_input").or_insert(0) += 1;
+                    }
+                }
                 let mut skip = false;
                 let r = last.map(|mut m| {
                     if let MBody::Input(inp) = &mut m.body {
@@ -632,6 +657,15 @@ impl<'p, C: SimCfg> World<'p, C> {
                             }
                             InputMutation::NegativeStart(s) => {
                                 inp.start_frame = -(s.abs().max(1));
+                                payload_changed = false;
+                            }
+                            InputMutation::NegativeStartLong { start, extra } => {
+                                inp.start_frame = (*start).min(-1);
+                                let mut frames = orig.clone();
+                                for k in 0..*extra {
+                                    frames.push((0..size).map(|i| 0x31u8.wrapping_mul(k + 1).wrapping_add(i as u8)).collect());
+                                }
+                                inp.bytes = ggrs::verif::encode(&[], &frames);
                                 payload_changed = false;
                             }
                             InputMutation::WrongSize => {
